@@ -19,6 +19,7 @@ import (
 	"verif/harness/hist"
 	"verif/harness/httpx"
 	"verif/harness/lnmodel"
+	"verif/harness/lockgen"
 	"verif/harness/rec"
 	"verif/harness/world"
 )
@@ -42,8 +43,8 @@ type base struct {
 	method   string
 	path     string
 	body     map[string]any
-	inputs   cashu.Proofs    // proofs referenced (unspent at build time)
-	outs     []world.Out     // outputs referenced
+	inputs   cashu.Proofs // proofs referenced (unspent at build time)
+	outs     []world.Out  // outputs referenced
 	mintQ    *world.MMintQuote
 	meltQ    *world.MMeltQuote
 }
@@ -291,12 +292,65 @@ func mutate(t *rapid.T, b *base) (string, []byte, string) {
 	return "", nil, ""
 }
 
+// nut10Input replaces the secret of one input by a NUT-10 (P2PK / HTLC) secret - well-formed or malformed in its tags -
+// for which the mint never signed anything: the request must be refused, and parsing the secret must not panic.
+func nut10Input(t *rapid.T, ins []any) string {
+	in := ins[rapid.IntRange(0, len(ins)-1).Draw(t, "nut10_input")].(map[string]any)
+	kind := rapid.SampledFrom([]string{"P2PK", "HTLC"}).Draw(t, "nut10_kind")
+	shape := rapid.SampledFrom([]string{"lockgen", "lockgen_malformed", "lockgen_malformed", "name_only_tag", "name_only_tag", "name_only_tag", "empty_tag", "tags_not_lists", "no_data", "no_tags", "tags_null", "unknown_kind", "body_not_object", "one_element"}).Draw(t, "nut10_shape")
+	c := lockgen.GenConfig(t, kind)
+	data := `"` + lockgen.K(lockgen.LockKey).Hex + `"`
+	if kind == "HTLC" {
+		data = `"` + strings.Repeat("ab", 32) + `"`
+	}
+	var secret string
+	switch shape {
+	case "lockgen":
+		c.Malformed = ""
+		secret = c.Secret()
+	case "lockgen_malformed":
+		c.Malformed = rapid.SampledFrom([]string{"bad_n_sigs", "negative_n_sigs", "huge_n_sigs", "bad_key_hex", "unknown_sigflag", "too_many_tags", "short_tag", "bad_locktime", "bad_data_key"}).Draw(t, "nut10_malformation")
+		secret = c.Secret()
+		shape += ":" + c.Malformed
+	case "name_only_tag":
+		name := rapid.SampledFrom([]string{"locktime", "n_sigs", "sigflag", "pubkeys", "refund", "unknown"}).Draw(t, "nut10_tag")
+		secret = fmt.Sprintf(`["%s", {"nonce":"%s","data":%s,"tags":[["%s"]]}]`, kind, c.Nonce, data, name)
+		shape += ":" + name
+	case "empty_tag":
+		secret = fmt.Sprintf(`["%s", {"nonce":"%s","data":%s,"tags":[[]]}]`, kind, c.Nonce, data)
+	case "tags_not_lists":
+		secret = fmt.Sprintf(`["%s", {"nonce":"%s","data":%s,"tags":["locktime", 1, null]}]`, kind, c.Nonce, data)
+	case "no_data":
+		secret = fmt.Sprintf(`["%s", {"nonce":"%s","tags":[["sigflag","SIG_ALL"]]}]`, kind, c.Nonce)
+	case "no_tags":
+		secret = fmt.Sprintf(`["%s", {"nonce":"%s","data":%s}]`, kind, c.Nonce, data)
+	case "tags_null":
+		secret = fmt.Sprintf(`["%s", {"nonce":"%s","data":%s,"tags":null}]`, kind, c.Nonce, data)
+	case "unknown_kind":
+		secret = fmt.Sprintf(`["P2SH", {"nonce":"%s","data":%s,"tags":[["locktime"]]}]`, c.Nonce, data)
+	case "body_not_object":
+		secret = fmt.Sprintf(`["%s", "%s"]`, kind, c.Nonce)
+	case "one_element":
+		secret = fmt.Sprintf(`["%s"]`, kind)
+	}
+	in["secret"] = secret
+	switch rapid.IntRange(0, 3).Draw(t, "nut10_witness") {
+	case 1:
+		in["witness"] = `{"signatures":[]}`
+	case 2:
+		in["witness"] = `{"preimage":"00","signatures":["` + strings.Repeat("00", 64) + `"]}`
+	case 3:
+		in["witness"] = "{"
+	}
+	return shape
+}
+
 // semantic mutations: valid JSON, invalid meaning
 func (p *prober) semantic(t *rapid.T, b *base) (string, []byte) {
 	w := p.w
 	switch b.endpoint {
 	case "swap", "mint":
-		how := rapid.SampledFrom([]string{"outputs_over_by_one", "dup_output_identical", "dup_output_changed_witness", "dup_output_changed_amount", "unknown_keyset_output", "non_key_amount_output", "output_not_a_point", "already_signed_output", "overflow_outputs", "spent_input", "unknown_quote"}).Draw(t, "sem_how")
+		how := rapid.SampledFrom([]string{"outputs_over_by_one", "dup_output_identical", "dup_output_changed_witness", "dup_output_changed_amount", "unknown_keyset_output", "non_key_amount_output", "output_not_a_point", "already_signed_output", "overflow_outputs", "spent_input", "unknown_quote", "nut10_secret_input", "nut10_secret_input", "nut10_secret_input"}).Draw(t, "sem_how")
 		outs := b.body["outputs"].([]any)
 		switch how {
 		case "outputs_over_by_one":
@@ -355,13 +409,20 @@ func (p *prober) semantic(t *rapid.T, b *base) (string, []byte) {
 				return "", nil
 			}
 			b.body["quote"] = "nonexistent"
+		case "nut10_secret_input":
+			if b.endpoint != "swap" {
+				return "", nil
+			}
+			how += ":" + nut10Input(t, b.body["inputs"].([]any))
 		}
 		raw, _ := json.Marshal(b.body)
 		return "semantic:" + how, raw
 	case "melt":
-		how := rapid.SampledFrom([]string{"underfunded", "spent_input", "unknown_quote", "dup_input_changed_witness", "forged_input"}).Draw(t, "sem_how")
+		how := rapid.SampledFrom([]string{"underfunded", "spent_input", "unknown_quote", "dup_input_changed_witness", "forged_input", "nut10_secret_input", "nut10_secret_input"}).Draw(t, "sem_how")
 		ins := b.body["inputs"].([]any)
 		switch how {
+		case "nut10_secret_input":
+			how += ":" + nut10Input(t, ins)
 		case "underfunded":
 			if len(ins) < 2 {
 				return "", nil
@@ -459,6 +520,9 @@ func (p *prober) probe(t *rapid.T) {
 	rec.Eval()
 	rec.Class("endpoint=" + endpoint)
 	rec.Class("mutation=" + strings.SplitN(class, ":", 2)[0])
+	if strings.HasPrefix(class, "semantic:") {
+		rec.Class("semantic=" + strings.Join(strings.SplitN(strings.TrimPrefix(class, "semantic:"), ":", 3)[:min(2, strings.Count(class, ":"))], ":"))
+	}
 	desc := fmt.Sprintf("%s %s [%s] body=%s", b.method, b.path, class, trunc(string(raw)))
 	if resp.Panic != nil {
 		sig := fmt.Sprintf("C06|panic|%s|%s|at=%s", endpoint, sigClass(class), httpx.PanicSite(resp.Stack))
